@@ -90,7 +90,7 @@ def build_go(cover=False, race=False):
             r = sh(["go", "build"] + flags + ["-o", os.path.join(BIN, "bklgo"), "./cmd/bklgo"], cwd=HARNESS, env=GOENV, check=False)
         if r.returncode != 0:
             fails["bklgo"] = r.stderr[-3000:]
-        for extra in ("extract", "recorder"):
+        for extra in ("extract", "recorder", "gotrans"):
             if os.path.isdir(os.path.join(HARNESS, "cmd", extra)):
                 r = sh(["go", "build", "-o", os.path.join(BIN, extra), "./cmd/" + extra], cwd=HARNESS, env=GOENV, check=False)
                 if r.returncode != 0:
@@ -145,9 +145,11 @@ FACTS = {"C01": ["DispatchMerge"], "C02": ["DispatchMerge"], "C03": ["Formats", 
          "C20": ["Formats", "StateTools"]}
 # translation-equivalence modules (BklProofs/Facts/Trans<Unit>.lean over the regenerated Generated/Trans/<Unit>.lean):
 # "what the Go source says now = what the model says", per property that rests on that source file
-TRANS = {"C06": ["TransValidate", "TransFinalize"], "C07": ["TransValidate"], "C09": ["TransFinalize"],
-         "C01": ["TransMatch", "TransUtil", "TransFilter"], "C02": ["TransMatch"], "C10": ["TransMatch"], "C11": ["TransUtil", "TransFilter", "TransOutput"],
-         "C12": ["TransFilter"], "C14": ["TransEncode"], "C15": ["TransBkld"], "C16": ["TransBkli"], "C17": ["TransBklr"], "C19": ["TransUtil"]}
+TRANS = {"C01": ["TransMerge", "TransMatch", "TransUtil", "TransFilter"], "C02": ["TransMerge", "TransMatch"],
+         "C06": ["TransValidate", "TransFinalize"], "C07": ["TransValidate", "TransMerge"], "C09": ["TransFinalize"],
+         "C10": ["TransMatch", "TransMerge"], "C11": ["TransUtil", "TransFilter", "TransOutput"],
+         "C12": ["TransFilter"], "C14": ["TransEncode", "TransEncode2"], "C15": ["TransBkld"], "C16": ["TransBkli"],
+         "C17": ["TransBklr", "TransMerge"], "C19": ["TransUtil", "TransMerge"]}
 for _p, _ms in TRANS.items():
     FACTS[_p] = FACTS.get(_p, []) + _ms
 
